@@ -44,6 +44,9 @@ def run_one(name, checks=None, tier="quick", seed="1"):
         rc, txt = sh(["git", "-C", tree, "apply", "--3way", os.path.join(d, "patch.diff")])
         if rc != 0:
             rc, txt = sh(["git", "-C", tree, "apply", os.path.join(d, "patch.diff")])
+        if rc != 0:
+            # later fix: commits may have moved the context: same edit, fuzzy context
+            rc, txt = sh(["patch", "-p1", "--fuzz=3", "-i", os.path.join(d, "patch.diff")], cwd=tree)
         res["applies"] = rc == 0
         if rc != 0:
             res["apply_error"] = txt[-400:]
